@@ -223,7 +223,7 @@ func runX(t *testing.T, ch *vs.Choices, prop, tier string, render bool) *vs.RunO
 				if r.HasV {
 					v.Set("V", ast.Var{Value: r.V})
 				}
-				calls = append(calls, &task.Call{Task: p.refName(-1, r.Target), Vars: v})
+				calls = append(calls, &task.Call{Task: p.refNameA(-1, r.Target, r.Alias), Vars: v})
 			}
 			done <- e.Run(ctx, calls...)
 		}()
